@@ -101,6 +101,7 @@ func main() {
 	r.Assume("a pair with identical hashes whose Commit returned an empty log has no stored write log in either backend (ErrWriteLogNotFound, counted under observed/...); the storage worker never requests such a diff (worker.go fetchDiff), so this is not reported")
 	r.Assume("the order of a served write log is the iteration order of a Go map in Commit; the follower is fed the log sorted by key so that the case list is a function of the seed; the served order itself is exercised when the log is applied to a tree at r")
 	r.Assume("on the hashed badger backend all candidates of a version with competing candidates use batches that only create nodes that never existed (fresh 8-byte values, no removals) and the main state candidate is the finalized one: the open C06 findings badger/finalize/discarded-sibling-recreated-preexisting-node and badger/prune|finalize node sharing between roots would otherwise make the finalized root unreadable; pathbadger candidates are unrestricted")
+	r.Assume("pathbadger: a commit that fails after the tree has been walked (wrong namespace, already finalized version, known-root mismatch, failing batch) leaves database pointers of the failed batch on the dirty nodes and the next successful commit of the same tree stores a corrupt root on the unchanged tree (minimal history recorded under coverage.observation_pathbadger_tree_reuse_after_failed_commit, reported to the lead); therefore pathbadger trees only get the refusals its NewBatch makes before walking the tree (version gap / backwards / same-version child of a finalized root), and only badger trees exercise refusals at the batch-commit stage")
 	r.Assume("the leader's state trees use mkvs.Capacity(0,0) (no eviction) because of the cache accounting finding mkvs/cache-valuesize-underflow/*; the real Apply path and the tree of step 2 use the default capacity, and a failure there is attributed to that finding only when the same operation succeeds on a non-evicting tree")
 
 	rn := &runner{r: r, versions: 10, maxOps: 10, perKind: r.Pick(3, 4), stats: stats{}}
@@ -134,6 +135,7 @@ func main() {
 	replayKnownWitnessD3(r)
 	replayKnownWitnessRootLeaf(r)
 	replayKnownWitnessCacheUnderflow(r)
+	observePathbadgerReuseAfterFailedCommit(r)
 	evid.Parallel(nHist, 0, func(h int) { rn.runHistory(h) })
 	rn.finish(r.Pick(30, 300))
 }
@@ -335,7 +337,7 @@ func listRoots(ndb dbApi.NodeDB, version uint64) string {
 // logProblem judges a write log of a batch: applied to the contents of r it must give the contents
 // of r', and its entries must be exactly net changes of the batch: every entry concerns a key the
 // batch touched and carries the key's final state. It returns "" or what is wrong.
-func logProblem(before, after model, ops []op, wl writelog.WriteLog) string {
+func logProblem(before, after model, ops []op, wl writelog.WriteLog, strict bool) string {
 	if got := applyLog(before, wl); !got.equal(after) {
 		var missing []string
 		for k, v := range after {
@@ -353,6 +355,9 @@ func logProblem(before, after model, ops []op, wl writelog.WriteLog) string {
 			missing = append(missing[:6], "...")
 		}
 		return fmt.Sprintf("applied to the contents of r it does not give the contents of r' (%d vs %d keys; %d log entries; keys that end up wrong: %v)", len(got), len(after), len(wl), missing)
+	}
+	if !strict {
+		return ""
 	}
 	touched := map[string]bool{}
 	for _, o := range ops {
@@ -638,7 +643,7 @@ func (rn *runner) runHistory(h int) {
 					nRef = 1 + candRng.IntN(2)
 				}
 				where = "tree-batch-with-refused-commits/" + backend
-				attempts, accepted, err := applyWithRefusedCommits(ctx, et, fdb, eops, nRef, rootType, v, finalized, candRng, st)
+				attempts, accepted, err := applyWithRefusedCommits(ctx, et, fdb, eops, nRef, backend, start.Hash.IsEmpty() || rootType != node.RootTypeState, rootType, v, finalized, candRng, st)
 				if err != nil {
 					et.Close()
 					fail("c13/"+backend+"/harness/tree-op-failed", err.Error(), base)
@@ -694,7 +699,7 @@ func (rn *runner) runHistory(h int) {
 			nRefused = 1 + frng.IntN(2)
 		}
 		where = "tree-batch-with-refused-commits/" + backend
-		attempts, accepted, err := applyWithRefusedCommits(ctx, tree, fdb, ops, nRefused, node.RootTypeState, v, finalized, frng, st)
+		attempts, accepted, err := applyWithRefusedCommits(ctx, tree, fdb, ops, nRefused, backend, prev.Hash.IsEmpty(), node.RootTypeState, v, finalized, frng, st)
 		if err != nil {
 			fail("c13/"+backend+"/harness/tree-op-failed", err.Error(), base)
 			return
@@ -751,6 +756,10 @@ func (rn *runner) runHistory(h int) {
 
 		// Candidates with a hash that another candidate of the version (or, for IO, the empty root)
 		// already has are not distinguishable in the database; they are dropped from the checks.
+		// dupRoots: roots (type:hash) that more than one tree committed in this version. The database
+		// keeps the write log of the first committer, which belongs to another batch, so the served
+		// log of such a root is only required to lead from r to r'.
+		dupRoots := map[string]bool{}
 		dedup := func(cands []pair, dropEmpty bool) []pair {
 			seen := map[string]bool{}
 			var out []pair
@@ -758,6 +767,7 @@ func (rn *runner) runHistory(h int) {
 				key := c.end.Hash.String()
 				if seen[key] || (dropEmpty && c.end.Hash.IsEmpty()) {
 					st.add("candidates_dropped_duplicate_or_empty", 1)
+					dupRoots[c.end.Type.String()+":"+key] = true
 					continue
 				}
 				seen[key] = true
@@ -773,6 +783,7 @@ func (rn *runner) runHistory(h int) {
 			for _, c := range stateCands {
 				if c.end.Hash.Equal(&mainPair.end.Hash) && c.order != mainPair.order {
 					mainDup = true
+					dupRoots[c.end.Type.String()+":"+c.end.Hash.String()] = true
 					dropped = append(dropped, c)
 					st.add("candidates_dropped_duplicate_or_empty", 1)
 					continue
@@ -810,7 +821,7 @@ func (rn *runner) runHistory(h int) {
 				csfx = "/after-refused-commit"
 			}
 			if phase == "pending-candidate" {
-				if d := logProblem(p.before, p.after, p.ops, p.commitLog); d != "" {
+				if d := logProblem(p.before, p.after, p.ops, p.commitLog, true); d != "" {
 					fail("c13/"+backend+"/commit-returned-log-wrong"+csfx, fmt.Sprintf("write log returned by Commit of candidate #%d of %d: %s", p.order, len(all), d), w)
 				}
 				st.add("returned_logs_checked", 1)
@@ -829,7 +840,7 @@ func (rn *runner) runHistory(h int) {
 			}
 			st.add(phase+"/getwritelog/"+backend+"/served", 1)
 			w.ServedLog = served
-			if d := logProblem(p.before, p.after, p.ops, served); d != "" {
+			if d := logProblem(p.before, p.after, p.ops, served, !dupRoots[p.end.Type.String()+":"+p.end.Hash.String()]); d != "" {
 				fail("c13/"+backend+"/"+phase+"/writelog-wrong-contents"+csfx, fmt.Sprintf("write log served for candidate #%d of %d (%s): %s", p.order, len(all), phase, d), w)
 			}
 			where = phase + "/apply-served-log-to-tree/" + backend
@@ -983,7 +994,7 @@ func (rn *runner) runHistory(h int) {
 				sfx = "/after-refused-commit"
 			}
 			// 0. The write log returned by Commit holds exactly the net changes of the batch.
-			if d := logProblem(p.before, p.after, p.ops, p.commitLog); d != "" {
+			if d := logProblem(p.before, p.after, p.ops, p.commitLog, true); d != "" {
 				fail("c13/"+backend+"/commit-returned-log-wrong"+sfx, "write log returned by Commit: "+d, w)
 			}
 			st.add("returned_logs_checked", 1)
@@ -1023,7 +1034,7 @@ func (rn *runner) runHistory(h int) {
 					seen[string(e.Key)] = true
 				}
 				// 2. Applied to r it must produce exactly r'.
-				if d := logProblem(p.before, p.after, p.ops, served); d != "" {
+				if d := logProblem(p.before, p.after, p.ops, served, !dupRoots[p.end.Type.String()+":"+p.end.Hash.String()]); d != "" {
 					fail("c13/"+backend+"/writelog-wrong-contents"+sfx, "served write log: "+d, w)
 				}
 				where = "apply-served-log-to-tree/" + backend
